@@ -8,6 +8,7 @@
 #include <stdbool.h>
 #include <string.h>
 #include <stdlib.h>
+#include <assert.h>
 typedef unsigned int uint;
 typedef unsigned char uchar;
 typedef unsigned short ushort;
